@@ -203,7 +203,7 @@ impl Engine for NetEngine {
                 if spawned != finished {
                     rep.violate("C07/connection-task-never-finishes", format!("server s{s}: {spawned} connection tasks spawned, {finished} finished although the signal fired at {t_sig} ms and every request ended long ago; {:?}", obs.fault_log));
                 }
-                if case.faults.iter().any(|f| f.kind % 9 == 7 && f.server as usize % nsrv == s && (f.at as u64) < t_sig) {
+                if case.faults.iter().any(|f| f.kind % 10 == 7 && f.server as usize % nsrv == s && (f.at as u64) < t_sig) {
                     rep.class("idle-connection-open-at-signal");
                 }
                 for (conn, t_acc) in &obs.accepted[s] {
@@ -246,7 +246,14 @@ impl Engine for NetEngine {
                             rep.class("e2e-request-timed-out");
                         }
                         ClientOutcome::Ok { .. } => {
-                            // the timeout covers the response head; the body is read afterwards
+                            // the timeout covers the response head (of the last hop of a followed
+                            // redirect); the body is read afterwards
+                            if let Some(at) = obs.resolved_at.get(&id).copied().filter(|at| *at > deadline) {
+                                rep.violate("C19/e2e-resolved-after-deadline", format!("{desc}: the request future resolved at {at} ms"));
+                            }
+                            if redirect_target(case, spec).is_some() {
+                                rep.class("e2e-redirected-request-completed");
+                            }
                             if let Some((sig, msg)) = judge_request(case, &obs, id) {
                                 rep.violate(format!("C19/e2e-inner-result-altered/{sig}"), msg);
                             }
@@ -298,7 +305,7 @@ impl Engine for NetEngine {
                 rep.class("handler-error");
             }
             for f in &case.faults {
-                rep.class(["fault-cancelled-connect", "fault-disconnect", "fault-garbage", "fault-truncated-head", "fault-truncated-body", "fault-mid-response", "fault-partial-preface", "holder", "fault-degenerate-pipe"][f.kind as usize % 9]);
+                rep.class(["fault-cancelled-connect", "fault-disconnect", "fault-garbage", "fault-truncated-head", "fault-truncated-body", "fault-mid-response", "fault-partial-preface", "holder", "fault-degenerate-pipe", "fault-crowd"][f.kind as usize % 10]);
             }
             rep.nontrivial = in_flight_during_fault && obs.probes.iter().all(|(_, o)| matches!(o, ClientOutcome::Ok { .. }));
         }
@@ -417,6 +424,24 @@ pub fn held(s: impl Strategy<Value = NetCase>) -> impl Strategy<Value = NetCase>
     })
 }
 
+/// One case in three runs over TLS: every server a TLS listener (`Server::with_tls`), the client with
+/// a TLS configuration, `https://` origins. (Debugging aid: VERIF_NET_TLS=1 / 0 forces it on / off.)
+pub fn secured(s: impl Strategy<Value = NetCase>) -> impl Strategy<Value = NetCase> {
+    let forced = std::env::var("VERIF_NET_TLS").ok().map(|v| v == "1");
+    (s, prop_oneof![2 => Just(false), 1 => Just(true)]).prop_map(move |(mut c, tls)| {
+        c.tls = forced.unwrap_or(tls);
+        c
+    })
+}
+
+/// Servers that have no signal scheduled are built `with_graceful_shutdown(pending)` in half of the cases.
+pub fn guarded(s: impl Strategy<Value = NetCase>) -> impl Strategy<Value = NetCase> {
+    (s, any::<bool>()).prop_map(|(mut c, g)| {
+        c.graceful_never = g;
+        c
+    })
+}
+
 pub fn ordered(s: impl Strategy<Value = NetCase>) -> impl Strategy<Value = NetCase> {
     (s, 0u8..2, prop_oneof![2 => Just(false), 1 => Just(true)]).prop_map(|(mut c, o, same_host)| {
         c.builder_order = o;
@@ -456,6 +481,8 @@ pub fn c01_strategy_up(max_reqs: usize, up_weight: u32) -> impl Strategy<Value =
             builder_order: 0,
             hold_server_future: false,
             same_host: false,
+            tls: false,
+            graceful_never: false,
         })
     })
 }
@@ -495,6 +522,8 @@ pub fn c07_strategy(max_reqs: usize) -> impl Strategy<Value = NetCase> {
             builder_order: 0,
             hold_server_future: false,
             same_host: false,
+            tls: false,
+            graceful_never: false,
         }})
     })
 }
@@ -525,6 +554,8 @@ pub fn c07_burst_strategy(max_reqs: usize) -> impl Strategy<Value = NetCase> {
             builder_order: 0,
             hold_server_future: false,
             same_host: false,
+            tls: false,
+            graceful_never: false,
         })
     })
 }
@@ -551,6 +582,8 @@ pub fn c13_e2e_strategy(max_reqs: usize) -> impl Strategy<Value = NetCase> {
             builder_order: 0,
             hold_server_future: false,
             same_host: false,
+            tls: false,
+            graceful_never: false,
         })
     })
 }
@@ -578,6 +611,8 @@ pub fn c04_e2e_strategy(max_reqs: usize) -> impl Strategy<Value = NetCase> {
             builder_order: 0,
             hold_server_future: false,
             same_host: false,
+            tls: false,
+            graceful_never: false,
         })
     })
 }
@@ -605,6 +640,8 @@ pub fn c15_e2e_strategy(max_reqs: usize) -> impl Strategy<Value = NetCase> {
             builder_order: 0,
             hold_server_future: false,
             same_host: false,
+            tls: false,
+            graceful_never: false,
         })
     })
 }
@@ -612,7 +649,12 @@ pub fn c15_e2e_strategy(max_reqs: usize) -> impl Strategy<Value = NetCase> {
 pub fn c19_strategy(max_reqs: usize) -> impl Strategy<Value = NetCase> {
     (servers_strategy(), env_strategy(), prop_oneof![Just(0u16), Just(5u16), Just(15u16), Just(40u16)]).prop_flat_map(move |(servers, (pool, connect_delay, latency, buf), timeout)| {
         let n = servers.len() as u8;
-        proptest::collection::vec(req_strategy(n, false, false), 1..=max_reqs).prop_map(move |reqs| NetCase {
+        let req = (req_strategy(n, false, false), prop_oneof![3 => Just(None), 1 => (0..n).prop_map(Some)]).prop_map(|(mut r, redirect)| {
+            // followed redirects: the deadline covers the whole chain of hops
+            r.redirect = redirect;
+            r
+        });
+        proptest::collection::vec(req, 1..=max_reqs).prop_map(move |reqs| NetCase {
             servers: servers.clone(),
             reqs,
             faults: vec![],
@@ -626,6 +668,8 @@ pub fn c19_strategy(max_reqs: usize) -> impl Strategy<Value = NetCase> {
             builder_order: 0,
             hold_server_future: false,
             same_host: false,
+            tls: false,
+            graceful_never: false,
         })
     })
 }
@@ -635,7 +679,7 @@ pub fn c09_strategy(max_reqs: usize) -> impl Strategy<Value = NetCase> {
         let n = servers.len() as u8;
         (
             proptest::collection::vec(req_strategy(n, false, true), 0..=max_reqs),
-            proptest::collection::vec((0..n, 0u16..60, prop_oneof![7 => 0u8..7, 1 => Just(8u8)], any::<u16>()).prop_map(|(server, at, kind, arg)| FaultSpec { server, at, kind, arg }), 1..6),
+            proptest::collection::vec((0..n, 0u16..60, prop_oneof![7 => 0u8..7, 1 => Just(8u8), 1 => Just(9u8)], any::<u16>()).prop_map(|(server, at, kind, arg)| FaultSpec { server, at, kind, arg }), 1..6),
         )
             .prop_map(move |(reqs, faults)| NetCase {
                 servers: servers.clone(),
@@ -651,6 +695,8 @@ pub fn c09_strategy(max_reqs: usize) -> impl Strategy<Value = NetCase> {
             builder_order: 0,
             hold_server_future: false,
             same_host: false,
+            tls: false,
+            graceful_never: false,
             })
     })
 }
@@ -711,9 +757,9 @@ pub fn run(ctx: &Ctx) -> i32 {
     let max_reqs = ctx.tier.pick(8, 24);
     let (rule, mins): (&str, Vec<(&'static str, f64)>) = match prop {
         "C01" => {
-            total.merge(run_generated(ctx, &engine, "concurrent-requests", move || ordered(c01_strategy(max_reqs)), ctx.cases(30_000, 1_500_000), 300));
+            total.merge(run_generated(ctx, &engine, "concurrent-requests", move || guarded(secured(ordered(c01_strategy(max_reqs)))), ctx.cases(30_000, 1_500_000), 300));
             // upgrade-heavy leg: half of the requests ask for a protocol upgrade (101 + raw exchange)
-            total.merge(run_generated(ctx, &engine, "upgraded-connections", move || c01_strategy_up(max_reqs.min(10), 4), ctx.cases(8_000, 400_000), 300));
+            total.merge(run_generated(ctx, &engine, "upgraded-connections", move || secured(c01_strategy_up(max_reqs.min(10), 4)), ctx.cases(8_000, 400_000), 300));
             // the default Client (Client::build_tcp_http) over real TCP against a real Server
             {
                 let tctx = Ctx { threads: 8, ..ctx.clone() };
@@ -741,16 +787,16 @@ pub fn run(ctx: &Ctx) -> i32 {
             )
         }
         "C07" => {
-            total.merge(run_generated(ctx, &engine, "signal-sweep", move || held(c07_strategy(max_reqs.min(8))), ctx.cases(30_000, 1_500_000), 300));
+            total.merge(run_generated(ctx, &engine, "signal-sweep", move || secured(held(c07_strategy(max_reqs.min(8)))), ctx.cases(30_000, 1_500_000), 300));
             // the signal resolves synchronously in the middle of an accept burst (one poll of the server)
-            total.merge(run_generated(ctx, &engine, "signal-during-accept-burst", move || c07_burst_strategy(max_reqs.min(8)), ctx.cases(8_000, 400_000), 300));
+            total.merge(run_generated(ctx, &engine, "signal-during-accept-burst", move || secured(c07_burst_strategy(max_reqs.min(8))), ctx.cases(8_000, 400_000), 300));
             (
                 "same simulation as C01 without cancellations, with a graceful-shutdown signal on one server at a virtual instant swept over 0-90 ms so that it lands before accept, during protocol detection, mid request head/body (chunk gaps, latency), during the handler, mid response, and on idle keep-alive connections; requests also start after the signal. Checked: serving future resolves Ok exactly at the signal; every request whose handler started before the signal gets its complete correct response; every connection task counted by the executor wrapper finishes; nothing is accepted after the signal. A second leg resolves the signal synchronously while the k-th connection of a burst of simultaneous connects is being accepted (inside one poll of the serving future): no connection beyond the k-th may be accepted or served. non-trivial = the signal fired while a handler was executing; distinct by hash of the case",
                 vec![("signal-while-handler-executing", 0.1), ("handler-started-before-signal", 0.3), ("request-after-signal", 0.2), ("idle-connection-open-at-signal", 0.1), ("signal-during-accept", 0.05), ("simultaneous-connects-at-signal-server", 0.03)],
             )
         }
         _ => {
-            total.merge(run_generated(ctx, &engine, "fault-sequences", move || c09_strategy(max_reqs.min(8)), ctx.cases(30_000, 1_500_000), 300));
+            total.merge(run_generated(ctx, &engine, "fault-sequences", move || guarded(secured(c09_strategy(max_reqs.min(8)))), ctx.cases(30_000, 1_500_000), 300));
             // TLS listener: plaintext, truncated ClientHello, silent peers; then a probe
             total.merge(crate::props::stack::leg(ctx, "C09"));
             // a make-service with back-pressure: the accept loop must respect poll_ready
